@@ -27,6 +27,8 @@ type Opts struct {
 	Classes     bool
 	Direction   bool
 	Tooltips    bool
+	LabelPos    bool // label.near / icon.near positions on shapes, containers and near shapes
+	CrossEdges  bool // connections from outside into grids / sequence diagrams, some of them parallel
 	SpecialOnly string // "grid" | "sequence" | "near": make that construct the point of the diagram
 }
 
@@ -45,6 +47,10 @@ type Diagram struct {
 	NEdges  int
 	Feats   []string
 	Markers []string // user strings that carry the injection marker
+	SeqIDs    []string
+	SeqActors []int
+	GridIDs   []string
+	GridCells []int
 }
 
 var Shapes = []string{"rectangle", "square", "circle", "oval", "diamond", "hexagon", "cloud", "cylinder", "queue", "package", "step", "callout", "stored_data", "person", "page", "parallelogram", "document"}
@@ -53,6 +59,8 @@ var trickyNames = []string{`"ZQXJ<x a=\"1\">"`, `"ZQXJ\" id=\"z"`, `"x y"`, `"a.
 var plainLabels = []string{"hello", "Hello World", "a longer label with several words", "x", "42", "UPPER lower", "multi\\nline"}
 var trickyLabels = []string{`"ZQXJ\" onload=\"alert(1)"`, `"</text><script>ZQXJ()</script>"`, `"ZQXJ' x='1"`, `"<script>alert(1)</script>"`, `"a & b < c > d"`, `"quote \" inside"`, `"it's"`, `"]]> cdata"`, `"ünïcödé 日本語 😀"`, `"--> arrow"`, `"&lt;already&gt;"`, `"tab\there"`, `""`, `"x' y=\"1"`}
 var colors = []string{"red", `"#ff0000"`, `"#0f0"`, "blue", `"#A1B2C3"`, "honeydew", `"linear-gradient(#f00, #00f)"`}
+var labelPositions = []string{"outside-top-left", "outside-top-center", "outside-top-right", "outside-left-center", "outside-right-center", "outside-bottom-center", "outside-bottom-left",
+	"top-center", "center-center", "bottom-right", "top-left", "outside-left-top", "outside-right-bottom", "border-top-center"}
 var NearConsts = []string{"top-left", "top-center", "top-right", "center-left", "center-right", "bottom-left", "bottom-center", "bottom-right"}
 
 type g struct {
@@ -188,6 +196,11 @@ func (x *g) obj(abs, ind string, depth int, role string, budget *int) string {
 		}
 	}
 	x.styles(in2, false)
+	// label positions only on containers (and on near shapes, below): on leaves the engines' label padding
+	// interacts with explicit sizes and connection ends in ways outside the properties' wording
+	if x.o.LabelPos && isContainer && x.p(35) {
+		fmt.Fprintf(&x.sb, "%slabel.near: %s\n", in2, x.pick(labelPositions))
+	}
 	if isContainer {
 		m.Role = "container"
 		if x.o.Direction && x.p(20) {
@@ -296,6 +309,8 @@ func (x *g) grid(ind string) {
 		x.d.Objs = append(x.d.Objs, m)
 	}
 	fmt.Fprintf(&x.sb, "%s}\n", ind)
+	x.d.GridIDs = append(x.d.GridIDs, n)
+	x.d.GridCells = append(x.d.GridCells, cells)
 	x.d.Feats = append(x.d.Feats, "grid")
 }
 
@@ -322,21 +337,36 @@ func (x *g) sequence(ind string) {
 	if x.o.SpecialOnly == "sequence" {
 		nm = x.r.Intn(31)
 	}
+	var pairs [][2]string
 	for i := 0; i < nm; i++ {
 		a, b := x.pick(actors), x.pick(actors)
+		pairs = append(pairs, [2]string{a, b})
 		switch {
 		case x.p(12):
+			pairs = pairs[:len(pairs)-1]
 			fmt.Fprintf(&x.sb, "%s  %s.sp%d -> %s: m%d\n", ind, a, i%3, b, i)
 		case x.p(8):
+			pairs = pairs[:len(pairs)-1]
 			fmt.Fprintf(&x.sb, "%s  %s.\"note %d\"\n", ind, a, i)
 		case x.p(8) && len(actors) > 1:
+			pairs = pairs[:len(pairs)-1]
 			fmt.Fprintf(&x.sb, "%s  grp%d: {\n%s    %s -> %s: g%d\n%s  }\n", ind, i, ind, a, b, i, ind)
 		default:
 			fmt.Fprintf(&x.sb, "%s  %s -> %s: m%d\n", ind, a, b, i)
 		}
 		x.d.NEdges++
 	}
+	// later references to earlier messages by index (must not move them)
+	if len(pairs) > 1 && x.p(40) {
+		for k := 0; k < 1+x.r.Intn(2); k++ {
+			pr := pairs[x.r.Intn(len(pairs)/2+1)] // one of the earlier messages
+			fmt.Fprintf(&x.sb, "%s  (%s -> %s)[0].style.stroke: red\n", ind, pr[0], pr[1])
+		}
+		x.d.Feats = append(x.d.Feats, "seq-reref")
+	}
 	fmt.Fprintf(&x.sb, "%s}\n", ind)
+	x.d.SeqIDs = append(x.d.SeqIDs, n)
+	x.d.SeqActors = append(x.d.SeqActors, len(actors))
 	x.d.Feats = append(x.d.Feats, "sequence")
 }
 
@@ -349,6 +379,9 @@ func (x *g) near(ind string) {
 		n := fmt.Sprintf("nr%d", i)
 		c := x.pick(NearConsts)
 		fmt.Fprintf(&x.sb, "%s%s: %s {\n%s  near: %s\n", ind, n, x.pick(plainLabels), ind, c)
+		if x.o.LabelPos && x.p(40) {
+			fmt.Fprintf(&x.sb, "%s  label.near: %s\n", ind, x.pick(labelPositions))
+		}
 		if x.p(25) {
 			fmt.Fprintf(&x.sb, "%s  inner%d\n", ind, i)
 			x.d.Objs = append(x.d.Objs, ObjMeta{ID: fmt.Sprintf("%s.inner%d", n, i), Shape: "rectangle"})
@@ -420,6 +453,33 @@ func Generate(r *rand.Rand, o Opts) *Diagram {
 	}
 	if o.Near && (o.SpecialOnly == "near" || x.p(35)) {
 		x.near("")
+	}
+	if o.CrossEdges && len(tops) > 0 {
+		// connections from ordinary shapes into grids and sequence diagrams, some declared twice (parallel)
+		for gi, gid := range x.d.GridIDs {
+			if x.d.GridCells[gi] > 0 && x.p(60) {
+				cell := fmt.Sprintf("%s.c%d", gid, x.r.Intn(x.d.GridCells[gi]))
+				src := x.pick(tops)
+				fmt.Fprintf(&x.sb, "%s -> %s: one\n", src, cell)
+				x.d.NEdges++
+				if x.p(50) {
+					fmt.Fprintf(&x.sb, "%s -> %s\n%s -> %s: two\n", src, x.pick(tops), src, cell)
+					x.d.NEdges += 2
+				}
+			}
+		}
+		for si, sid := range x.d.SeqIDs {
+			if x.d.SeqActors[si] > 0 && x.p(40) {
+				src := x.pick(tops)
+				fmt.Fprintf(&x.sb, "%s -> %s\n", src, sid)
+				x.d.NEdges++
+				if x.p(50) {
+					fmt.Fprintf(&x.sb, "%s -> %s: again\n", src, sid)
+					x.d.NEdges++
+				}
+			}
+		}
+		x.d.Feats = append(x.d.Feats, "cross-edges")
 	}
 	if o.Markdown && x.p(30) {
 		x.sb.WriteString("mdnote: |md\n  # Title\n  Some *markdown* with `code` and a [link](https://example.com).\n|\n")
